@@ -1,6 +1,222 @@
-/-! line-protocol handlers (stub: filled in when the suite is built) -/
-namespace Apko.Driver.Cache
+import Apko.Model.Cache
+/-! line-protocol handlers for corr:cache (C19)
 
-def handle (_args : List String) : Option String := none
+`cache-seq \t n \t revs \t builds \t goState \t goOutcomes`
+* `n`      number of non-final chunks per written file
+* `revs`   `r:k1.k2.k3+k1.k2.k3;r:…` — index revision `r` (its content id) ↦ packages in install order,
+           each with the content ids of its control section, data section and uncompressed tar
+* `builds` `;`-separated `on:hk:gk:K:extra` (online; HEAD announced `hk`, GET served `gk`; killed at
+           marker `K` plus `extra` steps, `K` = `-` for a build that is not killed) or `off`
+* `goState`, `goOutcomes`  what the real code left / answered (canonical tokens), for the oracle
+
+Answer: `impl \t verdict \t class` — impl = the model's `state|outcomes` after the same builds, verdict =
+the property's oracle evaluated on Go's output, class `F19a` iff the model run itself passed through
+a regular incomplete file under a final name (impossible for the repaired builders: `adv_invariant`).
+
+`cache-conc \t expect \t goState \t goOutcomes \t offline` — oracle only (concurrent recovery builds,
+then one offline build).  `cache-plant \t kind \t want \t online \t offline` — planted entries: both outcomes must be `want` or `err`.
+-/
+namespace Apko.Driver.Cache
+open Apko.Cache
+
+structure Pkg where
+  k1 : Cid
+  k2 : Cid
+  k3 : Cid
+
+abbrev Revs := List (Cid × List Pkg)
+
+def parsePkg (s : String) : Option Pkg :=
+  match s.splitOn "." with
+  | [a, b, c] => some ⟨a.toNat!, b.toNat!, c.toNat!⟩
+  | _ => none
+
+def parseRevs (s : String) : Revs :=
+  if s.isEmpty then [] else
+  (s.splitOn ";").filterMap fun e =>
+    match e.splitOn ":" with
+    | [r, ps] => some (r.toNat!, if ps.isEmpty then [] else (ps.splitOn "+").filterMap parsePkg)
+    | _ => none
+
+def pkgsOf (revs : Revs) (r : Cid) : List Pkg := ((revs.find? (·.1 = r)).map (·.2)).getD []
+
+structure Sim where
+  fs : FS := FS.empty
+  nextTmp : Nat := 0
+  idxTemps : List Name := []
+  idxRevs : List Cid := []
+  outcomes : List String := []
+  regenSeen : Bool := false
+
+def content (c : Cid) (b : Bool) : String := if b then s!"F{c}" else "P"
+
+def advToken (fs : FS) (k : Cid) : Option String :=
+  match fs.get (.adv k) with
+  | none => none
+  | some (.file c b) => some s!"A{k}=R{content c b}"
+  | some (.link t) =>
+    match fs.get t with
+    | some (.file c b) => some s!"A{k}=L{content c b}"
+    | _ => some s!"A{k}=LD"
+
+def tmpToken (fs : FS) (i : Nat) : Option String :=
+  match fs.get (.tmp i) with
+  | some (.file c b) => some s!"T={content c b}"
+  | _ => none
+
+def allCids (revs : Revs) (idx : List Cid) : List Cid :=
+  (idx ++ revs.map (·.1) ++ revs.flatMap fun (_, ps) => ps.flatMap fun p => [p.k1, p.k2, p.k3]).eraseDups
+
+def stateString (revs : Revs) (sim : Sim) : String :=
+  let toks := (allCids revs sim.idxRevs).filterMap (advToken sim.fs) ++
+    (List.range sim.nextTmp).filterMap (tmpToken sim.fs)
+  ",".intercalate (toks.mergeSort (fun a b => decide (a ≤ b)))
+
+def regenVisible (revs : Revs) (sim : Sim) : Bool :=
+  (allCids revs sim.idxRevs).any fun k =>
+    match sim.fs.get (.adv k) with
+    | some (.file _ false) => true
+    | _ => false
+
+/-- one builder segment: `budget = none` runs to completion, `some (marks, extra)` is a crash prefix.
+returns the new directory, the process, and the budget that is left (`none` result budget with
+`stopped = true` means the build was killed inside this segment) -/
+def runSeg (fs : FS) (prog : Prog) (budget : Option (Nat × Nat)) : FS × Proc × Option (Nat × Nat) × Bool :=
+  match budget with
+  | none =>
+    let r := runPrefix 100000 1000000 0 fs (Proc.new prog)
+    (r.1, r.2, none, false)
+  | some (marks, extra) =>
+    let r := runPrefix 100000 marks extra fs (Proc.new prog)
+    match r.2.prog with
+    | .halt _ => (r.1, r.2, some (marks - r.2.marks, extra), false)
+    | _ => (r.1, r.2, none, true)
+
+def halted (p : Proc) : Option Bool :=
+  match p.prog with
+  | .halt b => some b
+  | _ => none
+
+def obsComplete (p : Proc) : Bool := p.obs.all fun (_, _, b) => b
+
+/-- the revision the index segment ended up reading -/
+def revRead (p : Proc) : Option Cid := p.obs.getLast?.map (·.2.1)
+
+/-- package segments of one build, in install order; stops at the first error / at the crash -/
+def runPkgs (n : Nat) (offline : Bool) : List Pkg → FS → Nat → Option (Nat × Nat) → Bool →
+    FS × Nat × String × Bool   -- fs, nextTmp, status ("ok" | "err" | "crash"), all observations complete
+  | [], fs, nt, _, okc => (fs, nt, "ok", okc)
+  | p :: rest, fs, nt, budget, okc =>
+    let prog := if offline then pkgOffline (.tmp nt) p.k1 p.k2 p.k3 n
+      else pkgBuilder (.tmp nt) (.tmp (nt + 1)) (.tmp (nt + 2)) (.tmp (nt + 3)) p.k1 p.k2 p.k3 n
+    let nt' := if offline then nt + 1 else nt + 4
+    let (fs', pr, budget', stopped) := runSeg fs prog budget
+    if stopped then (fs', nt', "crash", okc)
+    else match halted pr with
+      | some true => runPkgs n offline rest fs' nt' budget' (okc && obsComplete pr)
+      | _ => (fs', nt', "err", okc)
+
+def finishBuild (revs : Revs) (sim : Sim) (fs : FS) (nt : Nat) (out : String) : Sim :=
+  let sim' := { sim with fs := fs, nextTmp := nt, outcomes := sim.outcomes ++ [out] }
+  { sim' with regenSeen := sim.regenSeen || regenVisible revs sim' }
+
+def buildOnline (n : Nat) (revs : Revs) (sim : Sim) (hk gk : Cid) (budget : Option (Nat × Nat)) : Sim :=
+  let t := Name.tmp sim.nextTmp
+  let sim := { sim with idxTemps := sim.idxTemps ++ [t], idxRevs := (sim.idxRevs ++ [hk, gk]).eraseDups }
+  let (fs1, pr, budget1, stopped) := runSeg sim.fs (indexOnline t hk gk n) budget
+  let nt := sim.nextTmp + 1
+  if stopped then finishBuild revs sim fs1 nt "crash"
+  else match halted pr, revRead pr with
+    | some true, some r =>
+      let (fs2, nt2, st, okc) := runPkgs n false (pkgsOf revs r) fs1 nt budget1 (obsComplete pr)
+      finishBuild revs sim fs2 nt2 (if st == "ok" then (if okc then s!"ok:img{r}" else "ok:img?") else st)
+    | _, _ => finishBuild revs sim fs1 nt "err"
+
+def buildOffline (n : Nat) (revs : Revs) (sim : Sim) : Sim :=
+  let cands := sim.idxRevs.map Name.adv ++ sim.idxTemps
+  let (fs1, pr, _, _) := runSeg sim.fs (indexOffline cands) none
+  match halted pr, revRead pr with
+  | some true, some r =>
+    let (fs2, nt2, st, okc) := runPkgs n true (pkgsOf revs r) fs1 sim.nextTmp none (obsComplete pr)
+    finishBuild revs sim fs2 nt2 (if st == "ok" then (if okc then s!"ok:img{r}" else "ok:img?") else st)
+  | _, _ => finishBuild revs sim fs1 sim.nextTmp "err"
+
+def runBuild (n : Nat) (revs : Revs) (sim : Sim) (b : String) : Sim :=
+  match b.splitOn ":" with
+  | ["on", hk, gk, k, extra] =>
+    buildOnline n revs sim hk.toNat! gk.toNat! (if k == "-" then none else some (k.toNat!, extra.toNat!))
+  | ["off"] => buildOffline n revs sim
+  | _ => sim
+
+/-! the oracle, evaluated on what the real code left behind / answered -/
+
+def tokenOk (t : String) : Bool :=
+  if t.startsWith "A" then
+    match (t.drop 1).toString.splitOn "=" with
+    | [k, d] => d == s!"LF{k}" || d == s!"RF{k}" || d == "LD"
+    | _ => false
+  else true
+
+def stateVerdict (goState : String) : Option String :=
+  let toks := if goState.isEmpty then [] else goState.splitOn ","
+  match toks.find? (fun t => !tokenOk t) with
+  | some t => some s!"advertised-name-holds-other-content:{t}"
+  | none => none
+
+/-- expected outcomes: online not killed → the image of the revision served (or of the revision HEAD
+announced, when the repository changed between HEAD and GET); killed → `crash` (or that image when the
+marker lies beyond the build); offline → an error or the image of the revision the most recent online
+build asked for (never an older revision, never anything else) -/
+def outcomesVerdict (builds : List String) (outs : List String) : Option String :=
+  let rec go (bs : List String) (os : List String) (last : List String) (i : Nat) : Option String :=
+    match bs, os with
+    | [], [] => none
+    | b :: bs', o :: os' =>
+      match b.splitOn ":" with
+      | ["on", hk, gk, k, _] =>
+        let want := s!"ok:img{gk}"
+        if o == want || o == s!"ok:img{hk}" || (k != "-" && o == "crash") then
+          go bs' os' [want, s!"ok:img{hk}"] (i + 1)
+        else some s!"build{i}:online:{o}:want:{want}"
+      | _ =>
+        if o == "err" || last.contains o then go bs' os' last (i + 1)
+        else some s!"build{i}:offline:{o}:want:err-or-{last}"
+    | _, _ => some "outcome-count"
+  go builds outs [] 0
+
+def handle (args : List String) : Option String :=
+  match args with
+  | ["cache-seq", n, revs, builds, goState, goOutcomes] =>
+    let revs := parseRevs revs
+    let bs := if builds.isEmpty then [] else builds.splitOn ";"
+    let sim := bs.foldl (runBuild n.toNat! revs) {}
+    let impl := stateString revs sim ++ "|" ++ ",".intercalate sim.outcomes
+    let outs := if goOutcomes.isEmpty then [] else goOutcomes.splitOn ","
+    let verdict := match stateVerdict goState, outcomesVerdict bs outs with
+      | some w, _ => "fail:" ++ w
+      | none, some w => "fail:" ++ w
+      | none, none => "pass"
+    some (impl ++ "\t" ++ verdict ++ "\t" ++ (if sim.regenSeen then "F19a" else "unlisted"))
+  | ["cache-conc", expect, goState, goOutcomes, offline] =>
+    let outs := if goOutcomes.isEmpty then [] else goOutcomes.splitOn ","
+    let verdict := match stateVerdict goState, outs.find? (· != expect) with
+      | some w, _ => "fail:" ++ w
+      | none, some o => s!"fail:concurrent-build:{o}:want:{expect}"
+      | none, none =>
+        if offline == expect || offline == "err" then "pass" else s!"fail:offline-after-recovery:{offline}"
+    some ("-\t" ++ verdict ++ "\tunlisted")
+  | ["cache-plant", kind, want, on, off] =>
+    -- a planted entry (truncated / foreign / stale) must never be used: the cache-less image or an error
+    let ok := fun (o : String) => o == want || o == "err"
+    let verdict := if ok on && ok off then "pass" else s!"fail:planted-entry-used:{kind}:online={on}:offline={off}"
+    -- F19b: `cachedPackage` never checks a cached data section against the hash in its name: a truncated
+    -- `.dat.tar` is used as it is, and the size of a truncated `.dat.tar.gz` goes into the installed db
+    some ("-\t" ++ verdict ++ "\t" ++
+      (if kind == "empty-tar" || kind == "cut-tar" || kind == "trunc-dat" then "F19b" else "unlisted"))
+  | ["cache-cold", cacheless, cold] =>
+    -- the most basic instance: an empty cache directory must not change the result
+    some ("-\t" ++ (if cacheless == cold then "pass" else s!"fail:cold-cache-build-differs:{cold}:cache-less:{cacheless}") ++ "\tunlisted")
+  | "cache-plant" :: _ => some "-\tfail:harness-setup\tunlisted"
+  | _ => none
 
 end Apko.Driver.Cache
